@@ -360,7 +360,7 @@ static void body_read_arbitrary(Tape &t, Ctx &c) {
 	uint64_t s = t.bits64();
 	std::vector<uint8_t> in(n);
 	for (size_t i = 0; i < n; i++) in[i] = (uint8_t) (mix64(s + i) >> 11);
-	if (t.coin() && n >= 4) { if (gz) { in[0] = 0x1f; in[1] = 0x8b; in[2] = 8; in[3] = (uint8_t) t.range(0, 255); } else { in[0] = 0x78; in[1] = (uint8_t) (in[1] - (((in[0] << 8) | in[1]) % 31)); if (((in[0] << 8) | in[1]) % 31) in[1] += 31; } }
+	if (t.coin() && n >= 4) { if (gz) { in[0] = 0x1f; in[1] = 0x8b; uint32_t cmr = t.raw(); in[2] = (cmr & 3) ? 8 : (uint8_t) (cmr >> 2); in[3] = (uint8_t) t.range(0, 255); } else { in[0] = 0x78; in[1] = (uint8_t) (in[1] - (((in[0] << 8) | in[1]) % 31)); if (((in[0] << 8) | in[1]) % 31) in[1] += 31; } }
 	size_t bl = (size_t) t.range(0, 40);
 	int chunk = (int) t.pick<uint32_t>({0, 1, 3, 7});
 	c.fpmix(gz); c.fpmix(n); c.fpmix(s); c.fpmix(bl); c.fpmix(chunk);
@@ -393,6 +393,28 @@ static void body_read_arbitrary(Tape &t, Ctx &c) {
 		bool ok = ret == 0 || ret == ISAL_END_INPUT || ret == ISAL_INVALID_WRAPPER || ret == ISAL_UNSUPPORTED_METHOD || ret == ISAL_INCORRECT_CHECKSUM || (gz && (ret == ISAL_NAME_OVERFLOW || ret == ISAL_COMMENT_OVERFLOW || ret == ISAL_EXTRA_OVERFLOW));
 		PBT_CHECK(ok, "hdr:read_arbitrary:code", "undocumented status %d from %s", ret, gz ? "isal_read_gzip_header" : "isal_read_zlib_header");
 		if (ret != ISAL_END_INPUT || pos >= n) break;
+	}
+	// exact classification from an independent RFC 1952 / RFC 1950 reading of the same bytes
+	if (gz) {
+		refhdr::Parsed ph;
+		int pr = refhdr::parse_gzip(in.data(), n, ph);
+		const char *hx = "";
+		std::string hs = jhex(in.data(), n, 16);
+		hx = hs.c_str();
+		if (pr == -1) PBT_CHECK(ret == ISAL_INVALID_WRAPPER, "hdr:read_arbitrary:class", "gzip header %s with ID bytes %02x %02x: status %d, not ISAL_INVALID_WRAPPER", hx, in[0], in[1], ret);
+		if (pr == -2) PBT_CHECK(ret == ISAL_UNSUPPORTED_METHOD, "hdr:read_arbitrary:class", "gzip header %s with CM = 0x%02x (only 8 = deflate is defined): status %d, not ISAL_UNSUPPORTED_METHOD", hx, in[2], ret);
+		// (with caller buffers an optional field may already be reported as too long before the header is complete)
+		if (pr == 0) PBT_CHECK(ret == ISAL_END_INPUT || (bl > 0 && (ret == ISAL_NAME_OVERFLOW || ret == ISAL_COMMENT_OVERFLOW || ret == ISAL_EXTRA_OVERFLOW)), "hdr:read_arbitrary:class", "incomplete gzip header %s (%zu bytes, caller buffers of %zu bytes): status %d, not ISAL_END_INPUT", hx, n, bl, ret);
+		if (pr == 1 && !ph.hcrc_ok) PBT_CHECK(ret != 0, "hdr:read_arbitrary:class", "gzip header %s with a wrong header CRC16 accepted", hx);
+		if (ret == 0) PBT_CHECK(pr == 1 && ph.hcrc_ok, "hdr:read_arbitrary:class", "isal_read_gzip_header accepted %s, the reference parser says %d", hx, pr);
+		if (pr == 1 && ph.hcrc_ok && bl == 0) PBT_CHECK(ret == 0, "hdr:read_arbitrary:class", "complete valid gzip header %s (no caller buffers): status %d", hx, ret);
+		c.label(fmt("ref-parse=%d", pr));
+	} else if (n >= 2) {
+		bool cm_ok = (in[0] & 15) == 8, fcheck_ok = ((in[0] << 8) | in[1]) % 31 == 0;
+		if (!cm_ok) PBT_CHECK(ret == ISAL_UNSUPPORTED_METHOD || ret == ISAL_INCORRECT_CHECKSUM, "hdr:read_arbitrary:class", "zlib header %02x %02x with CM != 8: status %d", in[0], in[1], ret);
+		if (cm_ok && !fcheck_ok) PBT_CHECK(ret == ISAL_INCORRECT_CHECKSUM, "hdr:read_arbitrary:class", "zlib header %02x %02x fails FCHECK: status %d, not ISAL_INCORRECT_CHECKSUM", in[0], in[1], ret);
+		if (ret == 0) PBT_CHECK(cm_ok && fcheck_ok && (!(in[1] & 0x20) || n >= 6), "hdr:read_arbitrary:class", "isal_read_zlib_header accepted %02x %02x (%zu bytes)", in[0], in[1], n);
+		if (cm_ok && fcheck_ok && (!(in[1] & 0x20) || n >= 6)) PBT_CHECK(ret == 0, "hdr:read_arbitrary:class", "valid zlib header %02x %02x (%zu bytes): status %d", in[0], in[1], n, ret);
 	}
 	c.nontrivial = n >= 10;
 	c.label(fmt("ret=%d", ret));
